@@ -704,7 +704,13 @@ func (c *Ctx) evalBinary(st *State, x *ast.BinaryExpr) Val {
 		} else {
 			sub.assume(c, Not(a))
 		}
+		pc0 := sub.pc.S
 		bv := c.eval(sub, x.Y)
+		if sub.pc.S == pc0 || !c.containsRealCall(x.Y) {
+			// nothing was learned while evaluating the operand beyond range facts of loaded values: keep the caller's
+			// path condition as it is (adopting them costs solver time and proves nothing)
+			sub.pc = st.pc
+		}
 		c.adoptEffects(st, sub, a, x.Op == token.LAND)
 		b := c.asScalar(bv, rt).T
 		if x.Op == token.LAND {
@@ -818,6 +824,28 @@ func (c *Ctx) eqValTyped(a, b Val, lt, rtt types.Type) Term {
 }
 
 // adoptEffects merges side effects (heap, alloc) performed in a guarded sub-evaluation back into st.
+// containsRealCall: the expression calls a function (conversions and builtins such as len/cap do not count).
+func (c *Ctx) containsRealCall(e ast.Expr) bool {
+	found := false
+	ast.Inspect(e, func(n ast.Node) bool {
+		call, ok := n.(*ast.CallExpr)
+		if !ok || found {
+			return !found
+		}
+		if tv, ok := c.pkg.info.Types[call.Fun]; ok && tv.IsType() {
+			return true
+		}
+		if id, ok := ast.Unparen(call.Fun).(*ast.Ident); ok {
+			if _, isB := c.pkg.info.ObjectOf(id).(*types.Builtin); isB {
+				return true
+			}
+		}
+		found = true
+		return false
+	})
+	return found
+}
+
 func (c *Ctx) adoptEffects(st, sub *State, guard Term, positive bool) {
 	g := guard
 	if !positive {
@@ -836,6 +864,16 @@ func (c *Ctx) adoptEffects(st, sub *State, guard Term, positive bool) {
 		if ov, ok := st.vars[k]; ok && !sameVal(ov, v) {
 			st.vars[k] = c.iteVal(g, v, ov)
 		}
+	}
+	for k, v := range sub.ghosts {
+		if ov, ok := st.ghosts[k]; ok && !sameVal(ov, v) {
+			st.ghosts[k] = c.iteVal(g, v, ov)
+		}
+	}
+	// what was learned while evaluating the guarded operand (callee postconditions, branch facts of inlined
+	// closures) holds whenever the operand was evaluated
+	if sub.pc.S != st.pc.S {
+		st.assume(c, Implies(g, sub.pc))
 	}
 }
 
